@@ -175,9 +175,39 @@ const serviceType = mt.MsgsAckTypeID     // sent through writeServiceMessage
 
 // runConn drives a real Conn: `workers` goroutines, each issuing its list of ops
 // (true = Invoke content message, false = service message).
+// pauseSrc wraps the id source of a Conn: when armed, the next New returns only after the harness
+// releases it (or 2 s), i.e. the caller is preempted right AFTER it obtained its message id. This is
+// how the harness forces the schedule "a service message is preempted between taking its msg_id and
+// taking its seq_no while a content message is generated completely" (workers = -1 in runConn).
+type pauseSrc struct {
+	inner   mtproto.MessageIDSource
+	arm     int32
+	paused  chan struct{}
+	release chan struct{}
+}
+
+func (p *pauseSrc) New(t proto.MessageType) int64 {
+	id := p.inner.New(t)
+	if atomic.CompareAndSwapInt32(&p.arm, 1, 0) {
+		close(p.paused)
+		select {
+		case <-p.release:
+		case <-time.After(2 * time.Second):
+		}
+	}
+	return id
+}
+
 func runConn(seed uint64, workers, opsPer int) connResult {
 	r := hx.NewRand(seed)
+	paused := workers < 0 // forced schedule: opsPer sequential messages, then a paused service message overtaken by a request
+	if paused {
+		workers = 1
+	}
 	total := workers * opsPer
+	if paused {
+		total = opsPer + 2
+	}
 	// scripted clock for the id generator: readings are consumed under the generator's lock
 	script := make([]int64, 0, total)
 	cur := int64(1_704_067_200_000_000_000)
@@ -207,7 +237,8 @@ func runConn(seed uint64, workers, opsPer int) connResult {
 		used = append(used, v)
 		return time.Unix(0, v)
 	}
-	env := mtx.NewEnv(r.Fork(), mtx.Config{MessageID: proto.NewMessageIDGen(now), Salt: 77, Options: func(o *mtproto.Options) {
+	ps := &pauseSrc{inner: proto.NewMessageIDGen(now), paused: make(chan struct{}), release: make(chan struct{})}
+	env := mtx.NewEnv(r.Fork(), mtx.Config{MessageID: ps, Salt: 77, Options: func(o *mtproto.Options) {
 		// a request that never gets its result (e.g. because two requests share a msg_id) must not
 		// stall the run: short timeout for the rpc_drop_answer that a cancelled Invoke issues
 		o.RequestTimeout = func(uint32) time.Duration { return 100 * time.Millisecond }
@@ -228,7 +259,7 @@ func runConn(seed uint64, workers, opsPer int) connResult {
 	stop := make(chan struct{})
 	peerDone := make(chan struct{})
 	badSalt := 0 // refuse every badSalt-th content frame once with bad_server_salt (0 = never)
-	if r.Chance(2, 3) {
+	if r.Chance(2, 3) && !paused {
 		badSalt = r.Range(1, 4)
 	}
 	nContent := 0
@@ -290,33 +321,55 @@ func runConn(seed uint64, workers, opsPer int) connResult {
 	var wg sync.WaitGroup
 	var emu sync.Mutex
 	werr := ""
-	for w := 0; w < workers; w++ {
-		wg.Add(1)
-		go func(plan []bool) {
-			defer wg.Done()
-			for _, content := range plan {
-				emu.Lock()
-				failed := werr != ""
-				emu.Unlock()
-				if failed {
-					return
-				}
-				ctx, cancel := context.WithTimeout(env.Ctx, 3*time.Second)
-				var err error
-				if content {
-					var out mt.RPCAnswerUnknown
-					err = env.Conn.Invoke(ctx, &mt.PingRequest{PingID: 5}, &out)
-				} else {
-					err = env.Conn.VerifWriteServiceMessage(ctx, &mt.MsgsAck{MsgIDs: []int64{4}})
-				}
-				cancel()
-				if err != nil {
-					emu.Lock()
-					werr = err.Error()
-					emu.Unlock()
-				}
+	runPlan := func(plan []bool) {
+		for _, content := range plan {
+			emu.Lock()
+			failed := werr != ""
+			emu.Unlock()
+			if failed {
+				return
 			}
-		}(plans[w])
+			ctx, cancel := context.WithTimeout(env.Ctx, 3*time.Second)
+			var err error
+			if content {
+				var out mt.RPCAnswerUnknown
+				err = env.Conn.Invoke(ctx, &mt.PingRequest{PingID: 5}, &out)
+			} else {
+				err = env.Conn.VerifWriteServiceMessage(ctx, &mt.MsgsAck{MsgIDs: []int64{4}})
+			}
+			cancel()
+			if err != nil {
+				emu.Lock()
+				werr = err.Error()
+				emu.Unlock()
+			}
+		}
+	}
+	if paused {
+		runPlan(plans[0])
+		atomic.StoreInt32(&ps.arm, 1)
+		wg.Add(1)
+		go func() { defer wg.Done(); runPlan([]bool{false}) }() // the service message: paused after taking its id
+		select {
+		case <-ps.paused:
+		case <-time.After(3 * time.Second):
+		}
+		reqDone := make(chan struct{})
+		wg.Add(1)
+		go func() { defer wg.Done(); defer close(reqDone); runPlan([]bool{true}) }() // a request tries to overtake it
+		select {
+		case <-reqDone:
+		case <-time.After(150 * time.Millisecond):
+		}
+		close(ps.release)
+	} else {
+		for w := 0; w < workers; w++ {
+			wg.Add(1)
+			go func(plan []bool) {
+				defer wg.Done()
+				runPlan(plan)
+			}(plans[w])
+		}
 	}
 	wg.Wait()
 	close(stop)
@@ -800,6 +853,11 @@ func main() {
 	for i := 0; i < c.N(30, 100); i++ {
 		connCase("concurrent", c.Rng.U64(), 8, c.Rng.Range(2, 8))
 	}
-	c.Obs.Rule = "MessageIDGen cases: scripted clock sequences (corpus incl. the repaired 1000/1001 ns witness, all 4-step patterns over steps {-5,0,1,3,4,9} at two bases, steps back by 1 s..1 day after a burst of ids, random sequences of <=24 readings over frozen/backward/+1..3 ns/coarse steps and steps of every magnitude 1 ns..hours in both directions at small, realistic and second-boundary bases); non-trivial = distinct sequence containing a step below 4 ns (frozen, backwards or sub-resolution). Conn cases: frames written by a real Conn, 1 or 8 goroutines mixing Invoke and service messages, taken in msg_id order; each distinct run counts. Also: one MessageIDGen shared by 2..8 goroutines under a frozen or coarse clock (frozen: sorted ids compared with the sequential model), and sequential Conn runs in which some writes fail (transport error, request that does not encode) between successful ones"
+	// forced schedule (workers = -1): after 0..6 sequential messages a service message is held right after
+	// it took its msg_id while a request is started; msg_id and seq_no must still be taken atomically
+	for i := 0; i < c.N(6, 24); i++ {
+		connCase("paused-service", c.Rng.U64(), -1, c.Rng.Range(0, 6))
+	}
+	c.Obs.Rule = "MessageIDGen cases: scripted clock sequences (corpus incl. the repaired 1000/1001 ns witness, all 4-step patterns over steps {-5,0,1,3,4,9} at two bases, steps back by 1 s..1 day after a burst of ids, random sequences of <=24 readings over frozen/backward/+1..3 ns/coarse steps and steps of every magnitude 1 ns..hours in both directions at small, realistic and second-boundary bases); non-trivial = distinct sequence containing a step below 4 ns (frozen, backwards or sub-resolution). Conn cases: frames written by a real Conn, 1 or 8 goroutines mixing Invoke and service messages, taken in msg_id order; each distinct run counts; plus forced schedules in which a service message is held (through Options.MessageID) right after taking its msg_id while a request is issued. Also: one MessageIDGen shared by 2..8 goroutines under a frozen or coarse clock (frozen: sorted ids compared with the sequential model), and sequential Conn runs in which some writes fail (transport error, request that does not encode) between successful ones"
 	c.Finish()
 }
